@@ -33,6 +33,16 @@ Condition kinds (what the condition is and how its evaluation becomes observable
     ex  expression  probe('name')                            -> event ('call', name)
     ei  expression  _['name'], name bound to a ProbeCallable -> event ('call', name)
 
+A *script* (fam 'script') is a history: several templates compiled in one process, each a
+sequence of conditionals (segments = cases as above) over one pool of names, rendered several
+times with changing bindings; see the "scripts" section below.  Extra condition kinds that
+only scripts use (the binding of the name comes from the round that is rendered):
+
+    nx  name, looked up as a name                   -> event of the round's binding kind
+    ev  expression consisting of the bare name      -> no event: an expression denotes the
+                                                       object itself, it is not called
+    xb  expression  probe(label)  armed to raise    -> event ('call', label), then the raise
+
 The model (`predict`) is written from the DT_If docstring and the property statement:
 conditions are evaluated left to right until the first true one; a name that is not
 defined is false; a named condition that was evaluated is remembered for the rest of the
@@ -49,6 +59,7 @@ NAMED = NAMED_DEFINED + ('un',)
 EXPRS = ('ex', 'ei')
 KINDS = NAMED + EXPRS
 CALL_EVENT = ('nc', 'nf', 'nb', 'nt', 'ex', 'ei')
+NAMED_MODES = NAMED + ('nx',)           # condition kinds spelled as a name
 
 FORMS = ('var', 'varq', 'ent', 'varm', 'vare', 'vari', 'if', 'elif', 'unless', 'call', 'let')
 WRAPPERS = ('in', 'with', 'let', 'if', 'else', 'unless', 'try')
@@ -92,9 +103,11 @@ class Syn:
 def cond_args(cond):
     n, a = cond['n'], cond.get('a', 0)
     k = cond['k']
-    if k in NAMED:
+    if k in NAMED_MODES:
         return (n, 'name=%s' % n, 'name="%s"' % n)[a % 3]
-    if k == 'ex':
+    if k == 'ev':
+        e = n
+    elif k in ('ex', 'xb'):
         e = "probe('%s')" % n
     elif k == 'ei':
         e = "_['%s']" % n
@@ -178,31 +191,54 @@ def btype_of(case, i):
     return bt[i] if bt else 'full'
 
 
-def build_source(case):
+def conditional_source(case):
+    """The conditional alone (for case['exc']: with its raising / returning tags)."""
     syn = Syn(case['style'])
     o, c = syn.open, syn.close
     fam = case['fam']
     conds = case['conds']
     endargs = cond_args(conds[0]) if case.get('endname') else ''
+    exc = case.get('exc')
+    bpre = ''
+    if exc == 'body':                           # the first thing any rendered body does is raise
+        bpre = o('call', '"probe(\'%s\')"' % case['xl'])
+    elif exc == 'ret':                          # ... or end the rendering of the (sub-)template
+        bpre = o('return', 'tt')
     if fam == 'chain':
         parts = []
         for i, cond in enumerate(conds):
             parts.append(o('if' if i == 0 else 'elif', cond_args(cond)))
-            parts.append(body_source(syn, 'B%d' % i, case['bodies'][i], btype_of(case, i)))
+            parts.append(bpre + body_source(syn, 'B%d' % i, case['bodies'][i], btype_of(case, i)))
+        if exc == 'cond':                       # a last condition that raises when it is reached
+            parts.append(o('elif', cond_args({'k': 'xb', 'n': case['xl'], 'a': len(conds)})) + 'XB')
         if case.get('else') is not None:
             # the long form repeats the argument of the if tag literally
             parts.append(o('else', cond_args(conds[0]) if case.get('ename') else ''))
-            parts.append(body_source(syn, 'E', case['else'], btype_of(case, 'E')))
+            parts.append(bpre + body_source(syn, 'E', case['else'], btype_of(case, 'E')))
         parts.append(c('if', endargs))
-        inner = ''.join(parts)
-    elif fam == 'unless':
-        inner = (o('unless', cond_args(conds[0])) +
-                 body_source(syn, 'B0', case['bodies'][0], btype_of(case, 0)) +
-                 c('unless', endargs))
-    elif fam == 'call':
-        inner = 'A' + o('call', cond_args(conds[0])) + 'B'
+        return ''.join(parts)
+    if fam == 'unless':
+        return (o('unless', cond_args(conds[0])) +
+                bpre + body_source(syn, 'B0', case['bodies'][0], btype_of(case, 0)) +
+                c('unless', endargs))
+    if fam == 'call':
+        return 'A' + o('call', cond_args(conds[0])) + 'B'
+    raise ValueError(fam)
+
+
+def build_source(case):
+    syn = Syn(case['style'])
+    o, c = syn.open, syn.close
+    exc = case.get('exc')
+    if exc == 'ret':
+        # the conditional is a sub-template of its own (bound to the name case['xl'], rendered in the
+        # caller's namespace); here it is only called
+        inner = o('call', case['xl'])
     else:
-        raise ValueError(fam)
+        inner = conditional_source(case)
+        if exc:
+            # the conditional is all there is in the try block: nothing is rendered there before the raise
+            inner = o('try') + inner + o('except') + 'EXC' + c('try')
     outer = case.get('outer')
     if outer:
         inner = wrap_source(syn, outer, inner)
@@ -256,9 +292,12 @@ def body_model(label, refs, known, btype='full'):
     return ''.join(out)
 
 
-def eval_cond(cond, known, events):
-    """Truth of one reached condition; appends its evaluation event; remembers named values."""
+def eval_cond(cond, known, events, env=None):
+    """Truth of one reached condition; appends its evaluation event; remembers named values.
+    env (scripts): the bindings of the round that is rendered, see Env."""
     k, n = cond['k'], cond['n']
+    if env is not None:
+        return env.eval_cond(cond, known, events)
     if k == 'un':
         return False
     if k in EXPRS:
@@ -275,24 +314,42 @@ def eval_cond(cond, known, events):
     return bool(v)
 
 
-def one_conditional(case, events):
+class ModelRaise(Exception):
+    """The modelled conditional is left by an exception (scripts, case['exc']); args[0] = the
+    names it had evaluated and remembered when that happened."""
+
+
+def one_conditional(case, events, env=None):
     """(text, index of the body chosen or 'E' or None) of one rendering of the conditional."""
     fam = case['fam']
     conds = case['conds']
     known = {}
+    exc = case.get('exc')
+
+    def body(label, refs, btype):
+        if exc == 'body':
+            events.append(('call', case['xl']))
+            raise ModelRaise(sorted(known))
+        if exc == 'ret':
+            raise ModelRaise(sorted(known))
+        return body_model(label, refs, known, btype)
+
     if fam == 'chain':
         for i, cond in enumerate(conds):
-            if eval_cond(cond, known, events):
-                return body_model('B%d' % i, case['bodies'][i], known, btype_of(case, i)), i
+            if eval_cond(cond, known, events, env):
+                return body('B%d' % i, case['bodies'][i], btype_of(case, i)), i
+        if exc == 'cond':
+            events.append(('call', case['xl']))
+            raise ModelRaise(sorted(known))
         if case.get('else') is not None:
-            return body_model('E', case['else'], known, btype_of(case, 'E')), 'E'
+            return body('E', case['else'], btype_of(case, 'E')), 'E'
         return '', None
     if fam == 'unless':
-        if eval_cond(conds[0], known, events):
+        if eval_cond(conds[0], known, events, env):
             return '', None
-        return body_model('B0', case['bodies'][0], known, btype_of(case, 0)), 0
+        return body('B0', case['bodies'][0], btype_of(case, 0)), 0
     if fam == 'call':
-        eval_cond(conds[0], known, events)
+        eval_cond(conds[0], known, events, env)
         return 'AB', None
     raise ValueError(fam)
 
@@ -438,3 +495,275 @@ def diagnose(case, chosen, exp_ev, got_ev):
     if not msgs:
         msgs.append('evaluation order differs')
     return '; '.join(msgs[:3])
+
+
+# ------------------------------------------------------------------ scripts (histories)
+"""A script is a history in one process:
+
+    {'fam': 'script', 'uid': 's3k17',            # prefix of every name of the script (fresh per script)
+     'compile': 'first' | 'lazy',                # all templates compiled before the first render, or each
+                                                 #   one right before its first render
+     'templates': [[segment, ...], ...],         # a template = its segments' sources one after the other
+     'rounds': [{name: {'k': kind, 'vs': [[truth, value index], ...]}, ...}, ...],
+     'schedule': [[template index, round index, fresh], ...]}   # the renders, in order; fresh = the
+                                                 #   source is compiled again for this render
+
+A segment is a chain / unless / call case (conditions of kind nx / ev / ex / ei) with two extra keys:
+'exc': None | 'body' | 'cond' | 'ret' and 'xl' (label of the raising probe): the conditional stands alone
+in <dtml-try>...<dtml-except>EXC</dtml-try> and is left by an exception -- raised by the first tag of
+whatever body is rendered ('body') or by one more elif condition that is reached when every
+condition of the chain is false ('cond').  'ret': the conditional is the whole source of a sub-template
+bound to the name 'xl', the segment is <dtml-call xl> (the sub-template is rendered in the caller's
+namespace) and the first tag of whatever body is rendered is <dtml-return tt>, which ends the
+sub-template.
+
+A round binds every name of the script: kind nc / nf / nb / nt (callables: the i-th evaluation in
+one render returns the i-th value of 'vs', the last one repeated -- values with an observable
+history), nm / np (plain: the one value of 'vs'), un (not bound), xv (value sequence of the
+expression probe(name)).
+
+Model (written from the statement, the DT_If notes and the DocumentTemplate module docstring):
+  * every render is judged on its own: nothing is carried over from an earlier render, an earlier
+    template or an earlier conditional of the same template -- a named condition that is reached is
+    evaluated (event) and its value *then* decides; inside one conditional it is remembered;
+  * a conditional that was left by an exception has ended: the next conditional starts afresh;
+  * what a condition means depends only on its own spelling: `x` / name=x is the name x ("if an
+    inserted value is a function, method, or class ... call the object"), "x" / expr="x" is the
+    Python expression x -- the object bound to x, not called, or the remembered value when the
+    conditional has already evaluated the name x ("if the value is used inside the tag ... the
+    variable is not reevaluated").
+"""
+
+SCRIPT_CALLABLE = ('nc', 'nf', 'nb', 'nt')
+EV_KINDS = ('np', 'nc', 'nf', 'nb')          # bindings of a name that some "x" expression tests
+DEFINED_KINDS = ('nc', 'nf', 'nb', 'nt', 'nm', 'np')
+ANY_KINDS = DEFINED_KINDS + ('un',)
+
+
+def tok_value(kind, tok):
+    t, v = tok
+    if kind == 'nt':
+        return 'x' if t else ''
+    return (TRUE if t else FALSE)[v]
+
+
+class Env:
+    """Bindings of one render + how often each callable has been evaluated in it."""
+
+    def __init__(self, bindings):
+        self.b = bindings
+        self.n = {}
+        self.varied = False          # some callable returned a value different from its previous one
+
+    def kind(self, name):
+        return self.b[name]['k']
+
+    def take(self, name):
+        b = self.b[name]
+        vs = b['vs']
+        if b['k'] in ('np', 'nm'):
+            return tok_value(b['k'], vs[0])
+        i = self.n.get(name, 0)
+        self.n[name] = i + 1
+        v = tok_value(b['k'], vs[min(i, len(vs) - 1)])
+        if i and v != tok_value(b['k'], vs[min(i - 1, len(vs) - 1)]):
+            self.varied = True
+        return v
+
+    def eval_cond(self, cond, known, events):
+        k, n = cond['k'], cond['n']
+        if k == 'xb':
+            events.append(('call', n))
+            raise ModelRaise(sorted(known))
+        if k in ('ex', 'ei'):
+            events.append(('call', n))
+            return bool(self.take(n))
+        bk = self.kind(n)
+        if k == 'ev':
+            if n in known:                   # the value the conditional remembers
+                return bool(known[n])
+            if bk == 'np':
+                return bool(self.take(n))
+            if bk in ('nc', 'nf', 'nb'):
+                return True                  # the object itself (no __bool__ / __len__): true, not called
+            raise ValueError('generator error: "%s" over a %s binding' % (n, bk))
+        if k == 'nx':
+            if bk == 'un':
+                return False
+            if n in known:
+                return bool(known[n])
+            if bk in SCRIPT_CALLABLE:
+                events.append(('call', n))
+            elif bk == 'nm':
+                events.append(('get', n))
+            v = self.take(n)
+            known[n] = v
+            return bool(v)
+        raise ValueError(k)
+
+
+def script_referable(conds, upto, safe):
+    """Names a body may reference: evaluated as a *name* at or before the branch, bound in every round."""
+    out = []
+    for c in conds[:upto + 1]:
+        if c['k'] == 'nx' and c['n'] in safe and c['n'] not in out:
+            out.append(c['n'])
+    return out
+
+
+def segment_model(seg, events, env):
+    """-> (text, [chosen branch | 'X' (left by the exception) per rendering], names remembered at a raise)."""
+    outer = seg.get('outer')
+    texts, chosen, lost = [], [], []
+    for _ in range(2 if outer in ('in', 'twice') else 1):
+        try:
+            t, ch = one_conditional(seg, events, env)
+        except ModelRaise as e:
+            t, ch = 'EXC', 'X'
+            lost += e.args[0]
+        if seg.get('exc') == 'ret':
+            t = ''                     # whatever the sub-template rendered or returned: call emits nothing
+        texts.append(t)
+        chosen.append(ch)
+    text = ''.join(texts)              # every other enclosing tag renders its content once, unchanged
+    if not seg.get('bare'):
+        text = PRE + text + POST
+    return text, chosen, lost
+
+
+def script_source(script, ti):
+    return ''.join(build_source(seg) for seg in script['templates'][ti])
+
+
+def predict_script(script):
+    """-> one dict per scheduled render: out, events, chosen (per segment), varied, stale_risk."""
+    res = []
+    for ti, ri, fresh in script['schedule']:
+        env = Env(script['rounds'][ri])
+        events, parts, chosen = [], [], []
+        lost = set()
+        after_exc = 0
+        for seg in script['templates'][ti]:
+            if lost and any(c['k'] in ('nx', 'ev') and c['n'] in lost for c in seg['conds']):
+                after_exc += 1         # tests a name that an abandoned conditional had remembered
+            t, ch, lo = segment_model(seg, events, env)
+            parts.append(t)
+            chosen.append(ch)
+            lost.update(lo)
+        res.append({'out': ''.join(parts), 'events': events, 'chosen': chosen, 'varied': env.varied,
+                    'after_exc': after_exc, 'raised': sum(c.count('X') for c in chosen)})
+    return res
+
+
+def script_history(script):
+    """Coverage facts about the compile / render history of a script (not part of the oracle)."""
+    seen = {}                              # name -> spellings compiled so far in this process
+    facts = {'name after expression': 0, 'expression after name': 0, 're-render, other round': 0,
+             're-render, same round': 0, 'fresh compile': 0, 'kind changed between renders': 0}
+
+    def compiled(ti):
+        for seg in script['templates'][ti]:
+            if seg.get('exc') == 'ret':
+                continue                   # its conditional is compiled for every render (sub-template)
+            for c in seg['conds']:
+                if c['k'] in ('nx', 'ev'):
+                    s = seen.setdefault(c['n'], set())
+                    if c['k'] == 'nx' and 'ev' in s:
+                        facts['name after expression'] += 1
+                    if c['k'] == 'ev' and 'nx' in s:
+                        facts['expression after name'] += 1
+                    s.add(c['k'])
+
+    done = set()
+    if script['compile'] == 'first':
+        for ti in range(len(script['templates'])):
+            compiled(ti)
+            done.add(ti)
+    last = {}
+    for ti, ri, fresh in script['schedule']:
+        if fresh or ti not in done:
+            compiled(ti)
+            done.add(ti)
+            if fresh:
+                facts['fresh compile'] += 1
+        elif ti in last:
+            facts['re-render, other round' if last[ti] != ri else 're-render, same round'] += 1
+            if last[ti] != ri and any(script['rounds'][ri][n]['k'] != b['k']
+                                      for n, b in script['rounds'][last[ti]].items()):
+                facts['kind changed between renders'] += 1
+        last[ti] = ri
+    return facts
+
+
+class Seq:
+    """Value sequence of one callable in one render: i-th take -> i-th value, the last one repeated."""
+
+    def __init__(self, values):
+        self.values = values
+        self.i = 0
+
+    def take(self):
+        v = self.values[min(self.i, len(self.values) - 1)]
+        self.i += 1
+        return v
+
+
+class SeqProbe:
+    def __init__(self, rec, name, seq):
+        self.rec, self.name, self.seq = rec, name, seq
+
+    def __call__(self):
+        self.rec.log('call', self.name)
+        return self.seq.take()
+
+    def method(self):
+        self.rec.log('call', self.name)
+        return self.seq.take()
+
+
+def make_script_namespace(script, ri, rec):
+    """-> (mapping, kw) for one render of a script template in round ri: fresh objects every time."""
+    from DocumentTemplate.DT_HTML import HTML
+    kw = {'two': [7, 8], 'wobj': Plain(), 'tt': True, 'ff': False}
+    logged = {}
+    seqs = {}
+    armed = set()
+    for t in script['templates']:
+        for seg in t:
+            if seg.get('exc') == 'ret':
+                kw[seg['xl']] = HTML(conditional_source(seg))
+            elif seg.get('exc'):
+                armed.add(seg['xl'])
+
+    def probe(label):
+        rec.log('call', label)
+        if label in armed:
+            raise Boom(label)
+        return seqs[label].take()
+    kw['probe'] = probe
+
+    for n, b in script['rounds'][ri].items():
+        k = b['k']
+        if k == 'un':
+            continue
+        vals = [tok_value(k, t) for t in b['vs']]
+        if k == 'np':
+            kw[n] = vals[0]
+        elif k == 'nm':
+            logged[n] = vals[0]
+        elif k == 'nc':
+            kw[n] = SeqProbe(rec, n, Seq(vals))
+        elif k == 'nf':
+            def f(p=SeqProbe(rec, n, Seq(vals))):
+                return p()
+            kw[n] = f
+        elif k == 'nb':
+            kw[n] = SeqProbe(rec, n, Seq(vals)).method
+        elif k == 'nt':
+            seqs[n] = Seq(vals)
+            kw[n] = HTML('<dtml-var "probe(\'%s\')">' % n)
+        elif k == 'xv':
+            seqs[n] = Seq(vals)
+        else:
+            raise ValueError(k)
+    return LogMap(rec, logged), kw
